@@ -400,19 +400,26 @@ impl<'a, F: Spill> ConvergenceMap<'a, F> {
         }
 
         // Check spilled blocks on disk.
+        //
+        // Scan the root index from the back. `load_block_from_disk(ri)` swap-removes
+        // `root[ri]` (the last entry, which has already been examined or was appended
+        // during this scan, takes its place) and may append the block it evicts from
+        // memory, which `find_in_memory` has already searched. Walking downwards
+        // therefore visits every block that was on disk when the scan began exactly
+        // once. A forward scan that stays at `ri` after a load keeps re-examining the
+        // blocks it has just evicted and never terminates once more than `NUM_BLOCKS`
+        // blocks overlap `location.max_cut`.
         {
-            let mut ri = 0;
-            while ri < self.storage.root.len() {
-                let node = self.storage.root[ri];
+            let mut ri = self.storage.root.len();
+            while let Some(i) = ri.checked_sub(1) {
+                ri = i;
+                let node = self.storage.root[i];
                 if location.max_cut >= node.min_max_cut && location.max_cut <= node.max_max_cut {
-                    // Load block into memory (removes root[ri] via swap_remove).
-                    let bi = self.load_block_from_disk(ri)?;
+                    // Load block into memory (removes root[i] via swap_remove).
+                    let bi = self.load_block_from_disk(i)?;
                     if let Some(ei) = self.storage.blocks[bi].find(location) {
                         return self.consume_entry(bi, ei);
                     }
-                    // Don't increment ri — swap_remove moved a new entry here.
-                } else {
-                    ri = ri.checked_add(1).assume("ri must not overflow")?;
                 }
             }
         }
